@@ -38,7 +38,7 @@ man = {
                  "kind_free_text": "own verification-condition generator over go/ssa (x/tools v0.50.0, vendored) + contract language in //@ comments + SMT back ends z3 4.8.12 / z3 5.1.0 / cvc5 1.0 raced per obligation; counterexamples replayed on the real code with go test -overlay"}],
     "checks": checks,
     "not_applicable": na,
-    "notes": "All checks rebuild the verification conditions from /repo's working tree on every run. `govc check all` runs every claimed property with one load. Known findings: /verif/KNOWN_FINDINGS.json. Must-fail corpus: /verif/tools/selftest.py.",
+    "notes": "All checks rebuild the verification conditions from /repo's working tree on every run. `govc check all` runs every claimed property with one load. Known findings (all fixed): /verif/KNOWN_FINDINGS.json. Must-fail corpus: /verif/tools/selftest.py over /verif/selftest/mutants and /verif/seeded, results in /verif/seeded/RESULTS.md. Bounded stand-ins (labelled bounded in the evidence, never counted as proved): /verif/bounded/<id>/. Replay harnesses: /verif/replay/<id>/ (`govc replay <id> <file>`). Implementation status, deviations and limits: /verif/DESIGN.md section 14.",
 }
 json.dump(man, open(f"{V}/MANIFEST.json", "w"), indent=1)
 print(len(checks), "checks,", len(na), "not applicable")
